@@ -79,8 +79,8 @@ theorem applyBatch_noop {P : Params} {h : Nat} {e : TxEntry} {rates avgs : Optio
   cases hver : verdict P s h rates avgs e.txs with
   | apply =>
     rw [hver] at hr
-    simp only [M.bind_run] at hr
-    cases hrec : recordBatch P h e.hash rates avgs e.txs s with
+    simp only [M.bind_run, logExec, M.guarded] at hr
+    cases hrec : recordBatch P h e.hash rates avgs e.txs { s with execLog := s.execLog ++ [e.hash] } with
     | ok u s2 => rw [hrec] at hr; simp only [M.pure_run] at hr; injection hr with hv' _; exact absurd hv'.symm hv
     | fail f s2 => rw [hrec] at hr; cases hr
   | reject c => rw [hver] at hr; simp only [M.pure_run] at hr; injection hr with _ hs; exact hs.symm
